@@ -64,9 +64,10 @@ example : (parse (print (.arr [.str "x".toList, .num 7]))).map print = some (pri
 
 /-!
 Part 2: the dict layer — `to_json_dict` (`ToJson.ownDump`: delete the class's key list at the top level,
-drop falsy values) and the builder's reading of a dumped dict into slots (`ToJson.reloadSlots`).  The
-tree recursion, `_qtd_kwargs` restoration and the group's `type` are in `ToJson.toJson`, which is tied to the
-real `to_json_dict` by the correspondence run but has no theorem here (see notes/design_C16.md).
+drop falsy values; `ToJson.optionDump`, `ToJson.restoreScalars`: what the class overrides put back) and the
+builder's reading of a dumped dict (`ToJson.reloadSlots`, `ToJson.reloadOption`, `ToJson.reloadScalar`).
+The tree recursion and `_qtd_kwargs` restoration are in `ToJson.toJson`, tied to the real `to_json_dict` by
+the correspondence run; they carry no theorem (see notes/design_C16.md).
 -/
 open Pyxv.ToJson
 
@@ -76,19 +77,18 @@ theorem dump_stable (del : List Str) (slots : Dict) (hn : (slots.map Prod.fst).N
     ownDump del (reloadSlots (slots.map Prod.fst) (ownDump del slots)) = ownDump del slots := by
   rw [reloadSlots_ownDump del slots hn, ownDump_eq_filter, ownDump_eq_filter, filter_map_keeps]
 
-example : ownDump ["bind".toList] (reloadSlots ["name".toList, "bind".toList, "label".toList]
-      (ownDump ["bind".toList] [("name".toList, .str "g".toList), ("bind".toList, .obj [("relevant".toList, .str "1".toList)]),
+example : ownDump ["extra_data".toList] (reloadSlots ["name".toList, "bind".toList, "label".toList]
+      (ownDump ["extra_data".toList] [("name".toList, .str "g".toList), ("bind".toList, .obj [("relevant".toList, .str "1".toList)]),
         ("label".toList, .null)]))
-    = ownDump ["bind".toList] [("name".toList, .str "g".toList), ("bind".toList, .obj [("relevant".toList, .str "1".toList)]),
+    = ownDump ["extra_data".toList] [("name".toList, .str "g".toList), ("bind".toList, .obj [("relevant".toList, .str "1".toList)]),
         ("label".toList, .null)] :=
   dump_stable _ _ (by decide)
 
-/-- PARTIAL (the full statement — the rebuilt survey generates the same XForm — is false on the pinned
-    code: F12, F37).  What is proved: every slot that the class's `to_json_dict` does not delete comes back
-    from dump + reload with its value (a falsy value comes back as a falsy initial value).  The guard
-    `k ∉ del` is exactly what the code loses: `bind` of a group, `extra_data` (extra choice columns), the
-    type-table keys of a question (`hint` for four types). -/
-theorem survey_json_roundtrip_partial (del : List Str) (slots : Dict) (hn : (slots.map Prod.fst).Nodup)
+/-- Every slot that the class's `to_json_dict` does not delete comes back from dump + reload with its value
+    (a falsy value comes back as a falsy initial value).  Slot level: the statement "the rebuilt survey
+    generates the same XForm" needs the builder and the XForm generator, which this slice does not model; it is
+    decided on the implementation for every generated form. -/
+theorem survey_json_roundtrip_slots (del : List Str) (slots : Dict) (hn : (slots.map Prod.fst).Nodup)
     (k : Str) (v : J) (hm : (k, v) ∈ slots) (hk : k ∉ del) :
     lookup k (reloadSlots (slots.map Prod.fst) (ownDump del slots)) = some (if truthy v then v else .null) := by
   rw [reloadSlots_ownDump del slots hn, lookup_map_snd _ slots hn k v hm]
@@ -97,39 +97,84 @@ theorem survey_json_roundtrip_partial (del : List Str) (slots : Dict) (hn : (slo
 example : lookup "label".toList (reloadSlots ["name".toList, "label".toList]
     (ownDump ["extra_data".toList] [("name".toList, .str "g".toList), ("label".toList, .str "L".toList)]))
     = some (.str "L".toList) := by
-  have := survey_json_roundtrip_partial ["extra_data".toList] [("name".toList, .str "g".toList), ("label".toList, .str "L".toList)]
+  have := survey_json_roundtrip_slots ["extra_data".toList] [("name".toList, .str "g".toList), ("label".toList, .str "L".toList)]
     (by decide) "label".toList (.str "L".toList) (by simp) (by decide)
   simpa [truthy] using this
 
-/-- the complement: a deleted key never survives — whatever the slot held, the rebuilt element has a
-    falsy value there.  With `group_deletes_bind` / `every_class_deletes_extra_data` /
-    `question_deletes_type_table_keys` this is the model's account of F12 and F37. -/
+/-- a key in the delete list comes back falsy unless a class override restores it (general lemma; it is what
+    made F12/F37 visible in the model before they were repaired). -/
 theorem deleted_key_lost (del : List Str) (slots : Dict) (hn : (slots.map Prod.fst).Nodup)
     (k : Str) (v : J) (hm : (k, v) ∈ slots) (hk : k ∈ del) :
     lookup k (reloadSlots (slots.map Prod.fst) (ownDump del slots)) = some .null := by
   rw [reloadSlots_ownDump del slots hn, lookup_map_snd _ slots hn k v hm]
   simp [keeps, hk]
 
+example : lookup "extra_data".toList (reloadSlots ["name".toList, "extra_data".toList]
+    (ownDump (allDelete .option ["name".toList, "extra_data".toList] [] ["parent".toList])
+      [("name".toList, .str "a".toList), ("extra_data".toList, .obj [("pop".toList, .str "1".toList)])]))
+    = some .null :=
+  deleted_key_lost _ _ (by decide) _ (.obj [("pop".toList, .str "1".toList)]) (by simp) (by decide)
+
+/-- group logic is kept (fix cecbf61): a group's `bind` is not in what `GroupedSection.to_json_dict` deletes,
+    so it survives dump + reload — `relevant`, `readonly`, `required`, `constraint`, messages, `bind::x`. -/
+theorem group_bind_survives (slots : Dict) (hn : (slots.map Prod.fst).Nodup) (qtd : List Str)
+    (v : J) (hm : ("bind".toList, v) ∈ slots) (ht : truthy v = true) :
+    lookup "bind".toList (reloadSlots (slots.map Prod.fst)
+      (ownDump (allDelete .group (slots.map Prod.fst) qtd ["parent".toList]) slots)) = some v := by
+  have := survey_json_roundtrip_slots (allDelete .group (slots.map Prod.fst) qtd ["parent".toList]) slots hn
+    "bind".toList v hm (by simp [allDelete, clsDelete])
+  simpa [ht] using this
+
 example : lookup "bind".toList (reloadSlots ["name".toList, "bind".toList]
     (ownDump (allDelete .group ["name".toList, "bind".toList] [] ["parent".toList])
       [("name".toList, .str "g".toList), ("bind".toList, .obj [("relevant".toList, .str "1 = 1".toList)])]))
-    = some .null :=
-  deleted_key_lost _ _ (by decide) _ (.obj [("relevant".toList, .str "1 = 1".toList)]) (by simp) (by decide)
+    = some (.obj [("relevant".toList, .str "1 = 1".toList)]) :=
+  group_bind_survives _ (by decide) [] _ (by simp) (by simp [truthy])
 
-theorem group_deletes_bind (names qtd extra : List Str) : "bind".toList ∈ allDelete .group names qtd extra := by
-  simp [allDelete, clsDelete]
+/-- extra choice columns are kept (fix d15eb33): the `extra_data` of an Option rebuilt from its dump is the
+    original `extra_data` without its falsy entries — for every option whose extra columns have distinct
+    names that are not slot names (what xls2json produces). -/
+theorem option_extra_survives (slots extra : Dict) (hn : (extra.map Prod.fst).Nodup)
+    (hd : ∀ k ∈ extra.map Prod.fst, k ∉ slots.map Prod.fst) :
+    (reloadOption (slots.map Prod.fst) (optionDump (slots, extra))).2 = extra.filter fun kv => truthy kv.2 := by
+  simp only [reloadOption, optionDump]
+  have hsub := ownDump_keys_subset (allDelete .option (slots.map Prod.fst) [] ["parent".toList]) slots
+  rw [restoreExtra_fresh extra _ hn (fun k hk hin => hd k hk (hsub k hin))]
+  apply reloadExtra_append _ _ _ hsub
+  intro k hk
+  simp only [List.mem_map, List.mem_filter] at hk
+  obtain ⟨kv, ⟨hkv, _⟩, e⟩ := hk
+  exact hd k (List.mem_map.mpr ⟨kv, hkv, e⟩)
 
-theorem every_class_deletes_extra_data (cls : Cls) (names qtd extra : List Str) :
-    "extra_data".toList ∈ allDelete cls names qtd extra := by
-  simp [allDelete]
+example : (reloadOption ["name".toList, "label".toList]
+    (optionDump ([("name".toList, .str "a".toList), ("label".toList, .str "A".toList)],
+      [("pop".toList, .str "1".toList), ("empty".toList, .str [])]))).2 = [("pop".toList, .str "1".toList)] := by
+  have := option_extra_survives [("name".toList, .str "a".toList), ("label".toList, .str "A".toList)]
+    [("pop".toList, .str "1".toList), ("empty".toList, .str [])] (by decide) (by decide)
+  simpa [truthy] using this
 
-theorem question_deletes_type_table_keys (names qtd extra : List Str) (k : Str) (hk : k ∈ qtd) :
-    k ∈ allDelete .question names qtd extra := by
-  simp [allDelete, clsDelete, hk]
+/-- a user's hint on a type whose type-table entry has a hint is kept (fix 86e7ba3): whatever truthy value the
+    slot holds — the table's own string or anything else — comes back from dump + reload. -/
+theorem user_hint_survives (slots d : Dict) (k v : Str) (value : J)
+    (hv : lookup k slots = some value) (ht : truthy value = true) (hd : lookup k d = none) :
+    reloadScalar k v (restoreScalars slots [(k, v)] d) = value := by
+  simp only [restoreScalars, hv, Option.getD_some, ht, Bool.true_and]
+  by_cases hne : neStr value v = true
+  · simp [hne, reloadScalar, setKey, lookup_dictInsert]
+  · cases value with
+    | str s =>
+      have : s = v := by simpa [neStr] using hne
+      subst this
+      simp [hne, reloadScalar, hd]
+    | _ => simp [neStr] at hne
 
-/-- facts about the tables regenerated from /repo on every run: `bind` is a slot of sections (so the group's
-    bind is lost by deletion, not by being an unknown key), and exactly four types carry a top-level
-    `hint` in the type table (the F37 hint loss applies to these and no others). -/
+example : reloadScalar "hint".toList "Enter numbers only.".toList
+    (restoreScalars [("hint".toList, .str "my hint".toList)] [("hint".toList, "Enter numbers only.".toList)]
+      [("name".toList, .str "p".toList)]) = .str "my hint".toList :=
+  user_hint_survives _ _ _ _ _ rfl (by simp [truthy]) (by decide)
+
+/-- facts about the tables regenerated from /repo on every run: `bind` is a slot of sections, and exactly four
+    types carry a top-level (string) `hint` in the type table — the keys `restoreScalars` is about. -/
 theorem bind_is_a_section_slot : "bind" ∈ Gen.sectionFields := by decide
 
 theorem types_with_table_hint :
